@@ -18,7 +18,7 @@ func c04(c *Ctx) {
 	d := dumpForms(c.Repo)
 	o.WriteFile("Tab.v", formsTab(c, d))
 	o.Stage("Tab.v")
-	o.Oblig("Tab.pass_order_ok", "Tab.info_constants_ok")
+	o.Oblig("Tab.info_constants_ok")
 	// all 12025 rows, sharded
 	n := len(d.Forms)
 	shard := 800
